@@ -544,6 +544,16 @@ impl<'a> GeneratorState<'a> {
             _ => unreachable!(),
         }
 
+        // A store or a read-modify-write instruction needs a memory cell: an operand that came out as a
+        // constant (the address of an array, `&x`, a number) is not one
+        if dasm_operand.starts_with('#')
+            && matches!(mnemonic, STA | STX | STY | INC | DEC | ASL | LSR | ROL | ROR)
+        {
+            return Err(self
+                .compiler_state
+                .syntax_error("Bad left value in assignment", pos));
+        }
+
         let mut s = mnemonic.to_string();
         if !dasm_operand.is_empty() {
             s += " ";
